@@ -51,14 +51,14 @@ def run(ctx):
     rng = random.Random(ctx.seed)
     four = '{"ta", "tb", "tc", "td"}'
     five = '{"ta", "tb", "tc", "td", "te"}'
-    ctx.mc("MC_Types", {"Names": four if quick else five}, ["TwoPhaseRefines"], timeout=1500)
+    ctx.mc("MC_Types", {"Names": four if quick else five}, ["TwoPhaseRefines"], timeout=3600)
     ctx.mc("MC_Types", {"Names": four}, ["BadOnePass"], expect_violation=True)
     gen_file = ctx.work / "gen_types.ndjson"
     ctx.gen("Gen_Types", {"Names": four, "Stride": 57 if quick else 5}, gen_file)
     cases = [json.loads(x) for x in open(gen_file)]
     if not quick:
         g5 = ctx.work / "gen_types5.ndjson"
-        ctx.gen("Gen_Types", {"Names": five, "Stride": 211}, g5, timeout=1500)
+        ctx.gen("Gen_Types", {"Names": five, "Stride": 211}, g5, timeout=3600)
         extra = [json.loads(x) for x in open(g5)]
         for c in extra:
             c["id"] += 1000000
